@@ -43,7 +43,7 @@ var ETypesByName = map[string]int32{
 	"des3-cbc-md5":                 DES3_CBC_MD5,
 	"des3-cbc-raw":                 DES3_CBC_RAW,
 	"des3-cbc-sha1":                DES3_CBC_SHA1,
-	"des3-hmac-sha1":               DES_HMAC_SHA1,
+	"des3-hmac-sha1":               DES3_CBC_SHA1_KD,
 	"des3-cbc-sha1-kd":             DES3_CBC_SHA1_KD,
 	"des-hmac-sha1":                DES_HMAC_SHA1,
 	"dsaWithSHA1-CmsOID":           DSAWITHSHA1_CMSOID,
